@@ -227,6 +227,23 @@ def oracle_parse_locs(pp, gname, mk, s, keep_tabs):
                     probs.append(f"leaf token {list(toks)!r} != parsed[{st}:{en}]={parsed[st:en]!r}")
         except pp.ParseBaseException:
             pass
+        # 4. transform_string works on the ORIGINAL text (it keeps tabs): its output is the original string with each
+        #    span that a tab-keeping scan_string reports replaced by the action's result
+        if not keep_tabs:
+            try:
+                e4 = mk().copy()
+                e4.add_parse_action(lambda t: "<" + "".join(t) + ">")
+                got = e4.transform_string(s)
+                k = mk().copy().parse_with_tabs()
+                out, last = [], 0
+                for toks, st, en in k.scan_string(s):
+                    out += [s[last:st], "<" + "".join(toks) + ">"]
+                    last = en
+                out.append(s[last:])
+                if got != "".join(out):
+                    probs.append(f"transform_string {got!r} != original text with the tab-keeping scan spans replaced {''.join(out)!r}")
+            except pp.ParseBaseException:
+                pass
     return probs
 
 
